@@ -1,4 +1,485 @@
+// C10: views over external memory behave exactly like owning objects (DESIGN 4.3).
+// Simulated storage: a harness-owned arena with a seeded layout of view slots (every
+// alignment class, odd scalar offsets, gaps of 0/1/3 canary scalars, directly adjacent
+// slots).  Every operation of a seeded history is executed twice: on a reference model
+// made of owning objects only, and through the planned mix of owning / Map / Map<const>
+// operands bound to the arena.  Fault: a neighbour writer that owns the gaps and the
+// slots an operation is not entitled to touch — as a second simulated thread under the
+// seeded scheduler in the race-detector flavour (any access outside a view is then an
+// unsynchronised conflict), or by scrambling the gaps in the other flavours.
 #include "checks.h"
+#include "../core/vsched.h"
+#include <pthread.h>
+#include <unistd.h>
+#include <cmath>
+#include <cstring>
+#include <cstdlib>
+#include <sstream>
+#include <algorithm>
+#include <set>
+
 namespace vsim {
-void run_c10(const RunOpts&, Result& res) { res.status = "harness_error"; res.detail = "not built yet"; }
+namespace {
+
+enum Fault : uint8_t { F_NONE = 0, F_REJECT = 1 };
+
+struct SlotLay { long off; long bytes; int align_class; };   // byte offset into the arena
+
+struct Arena {
+  unsigned char* base;      // 64-byte aligned
+  unsigned char* raw;
+  long size;
+  unsigned char* ref;       // what every byte outside a busy slot must contain (canaries + current slot contents)
+  unsigned char* snap;      // copy taken before a step
+  std::vector<SlotLay> eslot, tslot;
+  std::vector<void*> heap;  // exact-size blocks (asan flavour)
+  std::vector<char> nb_owned;  // per byte: 1 = belongs to the neighbour writer for the whole run (gaps + slots no operation uses)
+  Arena() : base(nullptr), raw(nullptr), size(0), ref(nullptr), snap(nullptr) {}
+};
+
+bool is_asan() { return std::strcmp(flavour_name(), "asan") == 0; }
+bool is_tsan() { return std::strcmp(flavour_name(), "tsan") == 0; }
+
+struct Sim {
+  const RunOpts& o;
+  Result& res;
+  Plan plan;
+  const GroupVT* vt;
+  void* V;          // views over the arena (+ its own owning objects)
+  void* M;          // reference model: owning objects only
+  Arena ar;
+  Rng rng;
+  long idx;
+  std::set<std::string> combos;
+  bool threaded;
+  Sim(const RunOpts& o_, Result& r_) : o(o_), res(r_), vt(nullptr), V(nullptr), M(nullptr), rng(o_.seed), idx(0), threaded(false) {}
+
+  std::string cls(const char* oracle, int op) { return std::string(oracle) + "/" + vt->name + "/" + (op_info(op).name ? op_info(op).name : "?"); }
+
+  // ---- layout --------------------------------------------------------------------------------------
+  void build_layout() {
+    const long ss = (long)vt->scalar_size;
+    long cur = 64;   // leading guard zone
+    auto place = [&](int i, bool elem) {
+      std::string key = std::string(elem ? "lay_e" : "lay_t") + std::to_string(i);
+      long code = plan.cfg_int(key.c_str(), 0);   // align class * 100 + pre-offset scalars * 10 + gap scalars
+      int ac = (int)(code / 100), pre = (int)((code / 10) % 10), gap = (int)(code % 10);
+      static const long aligns[] = {64, 32, 16, 8, 4, 1};
+      long al = aligns[ac % 6];
+      if (al < ss) al = ss;
+      if (al > 1) cur = (cur + al - 1) / al * al;
+      cur += pre * ss;
+      SlotLay sl; sl.off = cur; sl.bytes = (elem ? vt->rep : vt->dof) * ss; sl.align_class = ac * 10 + pre;
+      cur += sl.bytes + gap * ss;
+      (elem ? ar.eslot : ar.tslot).push_back(sl);
+    };
+    // interleave element and tangent slots in the order given by the plan
+    for (int i = 0; i < vt->NE; ++i) { place(i, true); if (i < vt->NT) place(i, false); }
+    for (int i = vt->NE; i < vt->NT; ++i) place(i, false);
+    ar.size = cur + 64;
+    ar.raw = (unsigned char*)std::malloc((size_t)ar.size + 64);
+    ar.base = (unsigned char*)(((uintptr_t)ar.raw + 63) & ~(uintptr_t)63);
+    ar.ref = (unsigned char*)std::malloc((size_t)ar.size);
+    ar.snap = (unsigned char*)std::malloc((size_t)ar.size);
+    // canaries: finite garbage scalars
+    Rng cr(plan.seed ^ 0xCA11A57ull);
+    for (long b = 0; b + ss <= ar.size; b += ss) {
+      if (vt->is_float) { float f = (float)cr.logmag(1e3, 1e6); std::memcpy(ar.base + b, &f, 4); }
+      else { double d = cr.logmag(1e3, 1e6); std::memcpy(ar.base + b, &d, 8); }
+    }
+  }
+
+  void make_states() {
+    std::vector<void*> eb((size_t)vt->NE), tb((size_t)vt->NT);
+    if (is_asan()) {
+      // exact-size heap blocks: any access outside a view is an AddressSanitizer report
+      for (int i = 0; i < vt->NE; ++i) { eb[i] = std::malloc(ar.eslot[i].bytes); ar.heap.push_back(eb[i]); }
+      for (int i = 0; i < vt->NT; ++i) { tb[i] = std::malloc(ar.tslot[i].bytes); ar.heap.push_back(tb[i]); }
+    } else {
+      for (int i = 0; i < vt->NE; ++i) eb[i] = ar.base + ar.eslot[i].off;
+      for (int i = 0; i < vt->NT; ++i) tb[i] = ar.base + ar.tslot[i].off;
+    }
+    V = vt->state_new(eb.data(), tb.data());   // writes identity / zero into every slot
+    M = vt->state_new(nullptr, nullptr);
+  }
+
+  void apply_sets() {
+    for (const Step& s : plan.steps) {
+      for (void* st : {V, M}) switch (s.kind) {
+        case ST_SETE: vt->set_elem(st, s.slot, 2, s.vals.data()); break;
+        case ST_SETT: vt->set_tan(st, s.slot, 2, s.vals.data()); break;
+        case ST_SETP: vt->set_pt(st, s.slot, s.vals.data()); break;
+        case ST_SETVEC: { int sl[16]; int n = 0; for (double v : s.vals) if (n < 16) sl[n++] = (int)v; vt->set_vec(st, sl, n, s.slot == 1); } break;
+        default: break;
+      }
+    }
+  }
+
+  // ---- which slots does the plan use; everything else belongs to the neighbour writer ----------------------------
+  // (The race detector knows nothing about our serialisation: the neighbour may only ever write bytes that no
+  //  operation of the whole run is entitled to access, otherwise its earlier writes would be reported against
+  //  later legitimate accesses.)
+  void op_slots(const OpRec& op, std::vector<int>& es, std::vector<int>& ts) {
+    const OpInfo& inf = op_info(op.op);
+    switch (inf.cls) {
+      case C_ELEM: case C_MUT_E:
+        es.push_back(op.a);
+        if (inf.arg2 == A_ELEM) es.push_back(op.b);
+        if (inf.arg2 == A_TAN) ts.push_back(op.b);
+        break;
+      case C_TAN: case C_MUT_T:
+        ts.push_back(op.a);
+        if (inf.arg2 == A_ELEM || op.op == OP_TM_LOG_INTO) es.push_back(op.b);
+        if (inf.arg2 == A_TAN || op.op == OP_TM_STREAM || op.op == OP_TM_SETVEE) ts.push_back(op.b);
+        break;
+      case C_ALG:
+        if (op.op == OP_INTERP_SLERP || op.op == OP_INTERP_CUBIC || op.op == OP_INTERP_SMOOTH) {
+          es.push_back(op.a); es.push_back(op.b); ts.push_back(op.c % vt->NT); ts.push_back((op.c + 1) % vt->NT);
+        }
+        break;
+      case C_STATIC:
+        if (op.op == OP_VEE) ts.push_back(op.a);
+        if (op.op == OP_BRACKET_S) { ts.push_back(op.a); ts.push_back(op.b); }
+        break;
+      default: break;
+    }
+  }
+  void compute_ownership() {
+    ar.nb_owned.assign((size_t)ar.size, 1);
+    std::vector<int> es, ts;
+    for (const Step& s : plan.steps) {
+      if (s.kind == ST_OP) {
+        op_slots(s.op, es, ts);
+        if (s.dst >= 0) { ValKind vk = op_value_kind(s.op.op); if (vk == VK_ELEM) es.push_back(s.dst); if (vk == VK_TAN) ts.push_back(s.dst); }
+      }
+    }
+    int used = 0;
+    for (int i : es) if (i >= 0 && i < (int)ar.eslot.size()) for (long b = ar.eslot[i].off; b < ar.eslot[i].off + ar.eslot[i].bytes; ++b) ar.nb_owned[b] = 0;
+    for (int i : ts) if (i >= 0 && i < (int)ar.tslot.size()) for (long b = ar.tslot[i].off; b < ar.tslot[i].off + ar.tslot[i].bytes; ++b) ar.nb_owned[b] = 0;
+    for (char c : ar.nb_owned) if (!c) ++used;
+    res.num["arena_bytes"] = (double)ar.size;
+    res.num["arena_bytes_used_by_ops"] = used;
+  }
+  void dst_range(const OpRec& op, long& dst_lo, long& dst_hi) {
+    const OpInfo& inf = op_info(op.op);
+    dst_lo = dst_hi = -1;
+    if (inf.cls == C_MUT_E && op.ka == K_MAP) { dst_lo = ar.eslot[op.a].off; dst_hi = dst_lo + ar.eslot[op.a].bytes; }
+    if (inf.cls == C_MUT_T && op.ka == K_MAP) { dst_lo = ar.tslot[op.a].off; dst_hi = dst_lo + ar.tslot[op.a].bytes; }
+  }
+
+  enum Tol { T_EXACT, T_ARITH, T_ITER };
+  Tol tol_class(int op) {
+    switch (op) {
+      case OP_M_ASSIGN: case OP_M_ASSIGN_EIGEN: case OP_M_MOVE_ASSIGN: case OP_M_COEFFWRITE: case OP_COEFFS:
+      case OP_TM_ASSIGN: case OP_TM_ASSIGN_EIGEN: case OP_TM_COEFFWRITE: case OP_TM_SETZERO: case OP_TM_STREAM:
+      case OP_T_NEG: case OP_DATAPTR: case OP_HAT: case OP_ZERO: case OP_GENERATOR: case OP_T_GENERATOR_M:
+        return T_EXACT;
+      case OP_INTERP_SLERP: case OP_INTERP_CUBIC: case OP_INTERP_SMOOTH: case OP_AVG_BIINV: case OP_AVG: case OP_AVG_FL:
+      case OP_AVG_FR: case OP_DECASTELJAU:
+        return T_ITER;
+      default: return T_ARITH;
+    }
+  }
+  bool close_enough(const double* a, const double* b, int n, Tol t, int& where) {
+    const double em = vt->is_float ? 1.1920929e-07 : 2.220446049250313e-16;
+    double mx = 0;
+    for (int i = 0; i < n; ++i) { mx = std::max(mx, std::fabs(a[i])); mx = std::max(mx, std::fabs(b[i])); }
+    const double tol = t == T_ITER ? (vt->is_float ? 1e-2 : 1e-6) * (1 + mx) : 1e3 * em * (1 + mx);
+    for (int i = 0; i < n; ++i) {
+      if (std::memcmp(&a[i], &b[i], 8) == 0) continue;
+      if (t == T_EXACT) { where = i; return false; }
+      if (std::isnan(a[i]) && std::isnan(b[i])) continue;
+      if (!(std::fabs(a[i] - b[i]) <= tol)) { where = i; return false; }
+      res.add("n.not_bit_identical_within_tol", 1);
+    }
+    return true;
+  }
+
+  // ---- one step -------------------------------------------------------------------------------------------------
+  bool step(const Step& s) {
+    const OpRec& op = s.op;
+    const OpInfo& inf = op_info(op.op);
+    long dst_lo, dst_hi;
+    dst_range(op, dst_lo, dst_hi);
+    if (!is_asan()) {
+      if (!threaded) {
+        // neighbour fault without a second thread: fresh garbage in every gap
+        const long ss = (long)vt->scalar_size;
+        Rng gr(plan.seed ^ (uint64_t)(idx * 7919 + 13));
+        std::vector<char> inslot((size_t)ar.size, 0);
+        for (auto& sl : ar.eslot) for (long b = sl.off; b < sl.off + sl.bytes; ++b) inslot[b] = 1;
+        for (auto& sl : ar.tslot) for (long b = sl.off; b < sl.off + sl.bytes; ++b) inslot[b] = 1;
+        for (long b = 0; b + ss <= ar.size; b += ss) {
+          if (inslot[b]) continue;
+          if (vt->is_float) { float f = (float)gr.logmag(1e3, 1e6); vs_mem_copy(ar.base + b, &f, 4); }
+          else { double d = gr.logmag(1e3, 1e6); vs_mem_copy(ar.base + b, &d, 8); }
+        }
+        res.add("f.neighbour_scramble", 1);
+      }
+      vs_mem_copy(ar.snap, ar.base, (unsigned long)ar.size);
+    }
+    // reference model first (owning objects only), then the planned operand kinds on the arena
+    uint64_t rs[5]; vs_rand_save(rs);
+    OpRec mop = op; mop.ka = K_OWN; mop.kb = K_OWN;
+    Out m; vt->exec(M, &mop, &m);
+    vs_rand_restore(rs);
+    if (threaded && op.fparam) vs_preempt_in(op.fparam);
+    Out v; vt->exec(V, &op, &v);
+    res.add((std::string("op.") + inf.name).c_str(), 1);
+    res.add("steps", 1);
+    {
+      char cb[64]; snprintf(cb, sizeof cb, "%d.%d.%d.%d", inf.cls == C_TAN || inf.cls == C_MUT_T ? ar.tslot[op.a % vt->NT].align_class : ar.eslot[op.a % vt->NE].align_class,
+                            (int)op.op, (int)op.ka, (int)op.kb);
+      combos.insert(cb);
+    }
+    if (v.status == 9 || m.status == 9) { res.add("n.not_applicable", 1); return true; }
+    // (1) same result as the owning-object model
+    if (v.status != m.status) {
+      res.fail("view_vs_owning", cls("view_vs_owning", op.op), std::string(inf.name) + " through operand kinds (" + std::to_string(op.ka) + "," +
+               std::to_string(op.kb) + ") ended with " + status_name(v.status) + ", the owning-object model with " + status_name(m.status), idx);
+      return false;
+    }
+    if (op.fault == F_REJECT) {
+      res.add("f.rejected_call", 1);
+      if (v.status != (int)op.fparam) { res.fail("rejected_call", cls("rejected_call", op.op), std::string(inf.name) + " was not refused", idx); return false; }
+    }
+    const Tol tc = tol_class(op.op);
+    int where = -1;
+    const double* pairs[3][2] = {{v.v, m.v}, {v.j1, m.j1}, {v.j2, m.j2}};
+    const int ns[3][2] = {{v.nv, m.nv}, {v.n1, m.n1}, {v.n2, m.n2}};
+    for (int k = 0; k < 3; ++k) {
+      if (op.op == OP_M_ALIAS && k > 0) continue;
+      if (ns[k][0] != ns[k][1] || !close_enough(pairs[k][0], pairs[k][1], ns[k][0], tc, where)) {
+        std::ostringstream d; d.precision(17);
+        d << inf.name << " in " << vt->name << " through operand kinds (" << (int)op.ka << "," << (int)op.kb << ") differs from the owning-object model in "
+          << (k == 0 ? "the returned value" : k == 1 ? "output 1" : "output 2");
+        if (where >= 0) d << " at entry " << where << ": " << pairs[k][0][where] << " vs " << pairs[k][1][where];
+        res.fail("view_vs_owning", cls("view_vs_owning", op.op), d.str(), idx);
+        return false;
+      }
+    }
+    if (v.flags & 1) { res.fail("output_block", cls("output_block", op.op), "write outside a bound output block", idx); return false; }
+    if (op.op == OP_DATAPTR && v.status == 0 && (v.v[0] != 1.0 || v.v[1] != 1.0)) {
+      res.fail("data_pointer", cls("data_pointer", op.op), std::string("view does not alias the user buffer in place (data()==buffer: ") + (v.v[0] == 1.0 ? "yes" : "NO") +
+               ", sub-view offsets: " + (v.v[1] == 1.0 ? "ok" : "WRONG") + ")", idx);
+      return false;
+    }
+    // (2) the arena changed only inside the destination slot
+    if (!is_asan()) {
+      long d = vs_mem_diff(ar.base, ar.snap, (unsigned long)ar.size, dst_lo, dst_hi);
+      if (d >= 0) {
+        std::ostringstream ds;
+        ds << inf.name << " in " << vt->name << " through kind " << (int)op.ka << " changed byte " << d << " of the user memory outside the " << (dst_lo >= 0 ? "destination view" : "(empty) set of bytes it may write")
+           << " [" << dst_lo << "," << dst_hi << ")";
+        // name the victim
+        for (size_t i = 0; i < ar.eslot.size(); ++i) if (d >= ar.eslot[i].off && d < ar.eslot[i].off + ar.eslot[i].bytes) ds << " - inside element slot " << i;
+        for (size_t i = 0; i < ar.tslot.size(); ++i) if (d >= ar.tslot[i].off && d < ar.tslot[i].off + ar.tslot[i].bytes) ds << " - inside tangent slot " << i;
+        res.fail("stray_write", cls("stray_write", op.op), ds.str(), idx);
+        return false;
+      }
+    }
+    // (3) written slot == model slot; then keep model, owning copy and buffer in lock step
+    if (inf.cls == C_MUT_E || inf.cls == C_MUT_T) {
+      const bool e = inf.cls == C_MUT_E;
+      const int n = e ? vt->rep : vt->dof;
+      double cv[32], cm[32];
+      if (e) { vt->get_elem(V, op.a, op.ka == K_MAP ? 1 : 0, cv); vt->get_elem(M, op.a, 0, cm); }
+      else { vt->get_tan(V, op.a, op.ka == K_MAP ? 1 : 0, cv); vt->get_tan(M, op.a, 0, cm); }
+      if (!close_enough(cv, cm, n, tc, where)) {
+        std::ostringstream d; d.precision(17);
+        d << "after " << inf.name << " through kind " << (int)op.ka << " the " << (op.ka == K_MAP ? "viewed buffer" : "owning object") << " of " << vt->name
+          << " differs from the owning-object model at coefficient " << where << ": " << cv[where] << " vs " << cm[where];
+        res.fail("slot_vs_model", cls("slot_vs_model", op.op), d.str(), idx);
+        return false;
+      }
+      if (e) { vt->set_elem(V, op.a, 2, cv); vt->set_elem(M, op.a, 2, cv); }
+      else { vt->set_tan(V, op.a, 2, cv); vt->set_tan(M, op.a, 2, cv); }
+    } else if (s.dst >= 0 && v.status == 0) {
+      ValKind vk = op_value_kind(op.op);
+      if (vk == VK_ELEM && v.nv == vt->rep && all_finite(v.v, v.nv)) { vt->set_elem(V, s.dst, 2, v.v); vt->set_elem(M, s.dst, 2, v.v); }
+      if (vk == VK_TAN && v.nv == vt->dof && all_finite(v.v, v.nv)) { vt->set_tan(V, s.dst, 2, v.v); vt->set_tan(M, s.dst, 2, v.v); }
+    }
+    return true;
+  }
+
+  // ---- generation ----------------------------------------------------------------------------------------------------
+  void generate() {
+    plan.check = "C10"; plan.seed = o.seed;
+    vt = group((int)rng.below(n_groups()));
+    plan.groups.push_back(vt->name);
+    for (int i = 0; i < vt->NE; ++i) plan.set(("lay_e" + std::to_string(i)).c_str(), (long)(rng.below(6) * 100 + (rng.chance(0.4) ? (1 + 2 * rng.below(2)) * 10 : 0) + (rng.chance(0.5) ? 0 : (rng.chance(0.5) ? 1 : 3))));
+    for (int i = 0; i < vt->NT; ++i) plan.set(("lay_t" + std::to_string(i)).c_str(), (long)(rng.below(6) * 100 + (rng.chance(0.4) ? (1 + 2 * rng.below(2)) * 10 : 0) + (rng.chance(0.5) ? 0 : (rng.chance(0.5) ? 1 : 3))));
+    for (int i = 0; i < vt->NE; ++i) {
+      ElemSpec sp; sp.angle = rng.uniform(0.1, 2.9); sp.neg_hemisphere = rng.chance(0.3); sp.lin_lo = 1e-2; sp.lin_hi = 10;
+      double c[32]; gen_elem(vt, rng, sp, c);
+      plan.steps.push_back(make_set(ST_SETE, 0, i, c, vt->rep));
+    }
+    for (int i = 0; i < vt->NT; ++i) {
+      TanSpec sp; sp.angle = rng.chance(0.2) ? std::fabs(rng.logmag(1e-10, 1e-6)) : rng.uniform(0.05, 1.4); sp.lin_lo = 1e-2; sp.lin_hi = 3;
+      double t[32]; gen_tan(vt, rng, sp, t);
+      plan.steps.push_back(make_set(ST_SETT, 0, i, t, vt->dof));
+    }
+    for (int i = 0; i < vt->NP; ++i) { double p[32]; gen_pt(vt, rng, 1e-2, 10, p); plan.steps.push_back(make_set(ST_SETP, 0, i, p, vt->dim)); }
+    Step vv; vv.kind = ST_SETVEC; vv.group = 0; for (int i = 0; i < 3; ++i) vv.vals.push_back(i);
+    plan.steps.push_back(vv);
+    const int len = 5 + (int)rng.below(o.thorough ? 80 : 36);
+    int squarings = 0;
+    // slots [use_ne, NE) and [use_nt, NT) are never named by an operation: they belong to the neighbour writer
+    const int use_ne = 2 + (int)rng.below(5), use_nt = 2 + (int)rng.below(3);
+    for (int i = 0; i < len; ++i) {
+      for (;;) {
+        int op = (int)rng.below(OP__END);
+        const OpInfo& inf = op_info(op);
+        if (!inf.name) continue;
+        if (op == OP_ROTATION && !(vt->caps & CAP_ROTATION)) continue;
+        if (op == OP_TRANSFORM && (vt->caps & CAP_BUNDLE)) continue;
+        if ((op == OP_SMALLADJ || op == OP_BRACKET || op == OP_BRACKET_S) && !(vt->caps & CAP_SMALLADJ)) continue;
+        if (op == OP_AVG && vt->dof == 1) continue;
+        if (op == OP_DECASTELJAU && vt->is_float) continue;
+        if (op == OP_M_NORMALIZE && !(vt->caps & CAP_NORMALIZE)) continue;
+        if (op == OP_M_SUBVIEW_WRITE && !(vt->caps & (CAP_ASSO3 | CAP_BUNDLE))) continue;
+        if ((op == OP_M_MULEQ || op == OP_M_ALIAS || op == OP_M_PLUSEQ) && ++squarings > 10) continue;
+        // favour operations that actually go through views
+        if ((inf.cls == C_STATIC || op == OP_SMOOTH_PHI) && rng.chance(0.8)) continue;
+        Step s = make_op(0, op, 0, 0, -1);
+        const int ne = use_ne, nt = use_nt;
+        s.op.a = (uint8_t)rng.below((inf.cls == C_TAN || inf.cls == C_MUT_T) ? nt : ne);
+        if (inf.cls == C_STATIC && (op == OP_VEE || op == OP_BRACKET_S)) { s.op.a = (uint8_t)rng.below(nt); s.op.b = (uint8_t)rng.below(nt); }
+        switch (inf.arg2) {
+          case A_ELEM: s.op.b = (uint8_t)rng.below(ne); break;
+          case A_TAN: s.op.b = (uint8_t)rng.below(nt); break;
+          case A_PT: s.op.b = (uint8_t)rng.below(vt->NP); break;
+          default: break;
+        }
+        if (op == OP_TM_LOG_INTO) s.op.b = (uint8_t)rng.below(ne);
+        s.op.c = (uint8_t)rng.below(nt > 1 ? nt - 1 : 1);
+        if (op == OP_GENERATOR || op == OP_T_GENERATOR_M) s.op.c = (uint8_t)rng.below(vt->dof);
+        if (op == OP_SMOOTH_PHI) { s.op.c = (uint8_t)(1 + rng.below(4)); s.op.s = rng.unit(); }
+        if (op == OP_INTERP_SLERP || op == OP_INTERP_CUBIC || op == OP_INTERP_SMOOTH) s.op.s = round_scalar(vt, rng.uniform(0.05, 0.95));
+        if (op == OP_ISAPPROX || op == OP_T_ISAPPROX) s.op.s = vt->eps * 1e3;
+        if (op == OP_T_SCALE) s.op.s = round_scalar(vt, rng.uniform(-2, 2));
+        if (op == OP_TM_MULEQ || op == OP_TM_DIVEQ) s.op.s = round_scalar(vt, rng.uniform(0.5, 1.5));
+        if (op == OP_M_ALIAS) s.op.c = (uint8_t)rng.below(AL__N);
+        if (op == OP_M_SUBVIEW_WRITE) s.op.c = (uint8_t)rng.below(3);
+        if (op == OP_M_COEFFWRITE || op == OP_TM_COEFFWRITE) s.op.variant = (uint8_t)rng.below(3);
+        // operand kinds: views most of the time
+        s.op.ka = (uint8_t)(rng.chance(0.2) ? K_OWN : (rng.chance(0.5) ? K_MAP : K_CMAP));
+        s.op.kb = (uint8_t)(rng.chance(0.25) ? K_OWN : (rng.chance(0.5) ? K_MAP : K_CMAP));
+        if (inf.cls == C_MUT_E || inf.cls == C_MUT_T) s.op.ka = (uint8_t)(rng.chance(0.15) ? K_OWN : K_MAP);
+        if (op == OP_BRACKET || op == OP_JT_MUL) { s.op.ka = K_OWN; s.op.kb = K_OWN; }
+        if (inf.nout) s.op.mask = (uint8_t)rng.below(1u << inf.nout);
+        if (rng.chance(0.15) && (op == OP_INTERP_SLERP || op == OP_TM_PLUSEQ || op == OP_TM_MINUSEQ)) s.op.variant |= V_ALT;
+        if (rng.chance(0.3) && op == OP_LOG && (vt->caps & (CAP_ASSO3 | CAP_BUNDLE))) s.op.variant |= V_SUB;
+        ValKind vk = op_value_kind(op);
+        if (inf.cls != C_MUT_E && inf.cls != C_MUT_T && rng.chance(0.4)) {
+          if (vk == VK_ELEM) s.dst = (int)rng.below(ne);
+          if (vk == VK_TAN) s.dst = (int)rng.below(nt);
+        }
+        s.op.fparam = (uint16_t)(rng.chance(0.6) ? 1 + rng.below(3000) : 0);   // pre-emption point inside the operation
+        plan.steps.push_back(s);
+        break;
+      }
+    }
+    plan.set("threads", is_tsan() ? 2 : 1);
+    // the neighbour only stops when the worker is done: a policy that can keep one thread running for ever
+    // (fixed priorities) would livelock, so the scheduler picks uniformly between the two
+    plan.set("policy", 0);
+  }
+
+  // ---- threads ------------------------------------------------------------------------------------------------------------
+  static void* worker_tramp(void* p) { static_cast<Sim*>(p)->worker(); return nullptr; }
+  static void* neigh_tramp(void* p) { static_cast<Sim*>(p)->neighbour(); return nullptr; }
+
+  void run_steps() {
+    for (size_t i = 0; i < plan.steps.size(); ++i) {
+      if (plan.steps[i].kind != ST_OP) continue;
+      idx = (long)i;
+      if (threaded) vs_yield(VS_R_OPB, (unsigned)i);
+      if (!step(plan.steps[i])) break;
+    }
+  }
+  void worker() {
+    vs_thread_begin(0);
+    run_steps();
+    vs_flag_set(1);
+    vs_thread_end();
+  }
+  // The neighbour owns every byte of the arena the current operation is not entitled to touch and keeps
+  // rewriting it (with the value it must have anyway).  Plain, instrumented stores.
+  void neighbour() {
+    vs_thread_begin(1);
+    const long ss = (long)vt->scalar_size;
+    unsigned k = 0;
+    long writes = 0;
+    while (!vs_flag_get()) {
+      vs_yield(VS_R_NEIGHBOUR, k++);
+      for (long b = 0; b + ss <= ar.size; b += ss) {
+        bool mine = true;
+        for (long q = b; q < b + ss; ++q) if (!ar.nb_owned[(size_t)q]) mine = false;
+        if (!mine) continue;
+        if (vt->is_float) { float f; std::memcpy(&f, ar.ref + b, 4); *(volatile float*)(ar.base + b) = f; }
+        else { double d; std::memcpy(&d, ar.ref + b, 8); *(volatile double*)(ar.base + b) = d; }
+        ++writes;
+      }
+    }
+    nb_writes = writes; nb_rounds = k;
+    vs_thread_end();
+  }
+  long nb_writes = 0, nb_rounds = 0;
+
+  void run() {
+    vs_rand_mode(1, (o.replay ? o.replay->seed : o.seed) ^ 0x10101);
+    if (o.replay) { plan = *o.replay; vt = plan.groups.empty() ? nullptr : group_by_name(plan.groups[0].c_str()); }
+    else generate();
+    if (!vt) { res.status = "harness_error"; res.detail = "unknown group"; return; }
+    build_layout();
+    make_states();
+    apply_sets();
+    if (!is_asan()) vs_mem_copy(ar.ref, ar.base, (unsigned long)ar.size);
+    compute_ownership();
+    threaded = plan.cfg_int("threads", 1) == 2 && !is_asan();
+    if (threaded) {
+      long nops = 0; for (const Step& s : plan.steps) if (s.kind == ST_OP) ++nops;
+      vs_flag_set(0);
+      vs_sim_begin(plan.seed, 2, (int)plan.cfg_int("policy", 0), 1, 4 * nops + 16, 40 * nops + 400);
+      vs_set_guard_points(0);
+      if (plan.has_schedule) vs_sim_replay(plan.schedule.data(), (int)plan.schedule.size());
+      pthread_t t0, t1;
+      pthread_create(&t0, nullptr, worker_tramp, this);
+      pthread_create(&t1, nullptr, neigh_tramp, this);
+      int rc = vs_run();
+      if (rc != 0) { res.status = "harness_error"; res.detail = "scheduler rc " + std::to_string(rc); res.print(stdout); fflush(stdout); _exit(2); }
+      pthread_join(t0, nullptr); pthread_join(t1, nullptr);
+      res.num["f.neighbour_rounds"] = (double)nb_rounds;
+      res.num["f.neighbour_writes"] = (double)nb_writes;
+      res.num["f.preempt"] = (double)vs_preempts_fired();
+      res.num["sched_steps"] = (double)vs_steps();
+      char hb[32]; snprintf(hb, sizeof hb, "%016llx", (unsigned long long)vs_event_hash()); res.str["evhash"] = hb;
+      if (o.record) { plan.has_schedule = true; plan.schedule.clear(); for (long i = 0; i < vs_schedule_len(); ++i) plan.schedule.push_back(vs_schedule_at(i)); }
+    } else {
+      run_steps();
+    }
+    res.num["tsan_reports"] = vs_tsan_reports();
+    res.str["groups"] = vt->name;
+    {
+      std::string cs; int n = 0;
+      for (auto& c : combos) { if (n++) cs += ","; cs += c; }
+      res.str["combos"] = cs;
+      Fnv f; for (const Step& s : plan.steps) if (s.kind == ST_OP) { f.i32(s.op.op); f.i32(s.op.a); f.i32(s.op.b); f.i32(s.op.ka); f.i32(s.op.kb); }
+      char hb[32]; snprintf(hb, sizeof hb, "%016llx", (unsigned long long)f.h); res.str["hist"] = hb;
+    }
+    if (o.record) *o.record = plan;
+    vt->state_free(V); vt->state_free(M);
+    for (void* p : ar.heap) std::free(p);
+    std::free(ar.raw); std::free(ar.ref); std::free(ar.snap);
+  }
+};
+
+}  // namespace
+
+void run_c10(const RunOpts& o, Result& res) {
+  Sim s(o, res);
+  s.run();
 }
+
+}  // namespace vsim
